@@ -25,7 +25,8 @@ import vlib
 
 THEOREMS = ["C18_fold_one_to_one", "C18_fold_count", "C18_fold_kinds", "C18_fold_starts_at_first_token",
             "C18_fold_wf", "C18_fold_laminar", "C18_fold_source_order",
-            "C18_outline_file_list", "C18_outline_of_file", "C18_outline_entry", "C18_outline_children_order"]
+            "C18_outline_file_list", "C18_outline_of_file", "C18_outline_entry", "C18_outline_children_order",
+            "C18_outline_children_distinct"]
 TRUSTED = [
     "Coq 8.16.1 kernel; vm_compute only in the Examples; no axioms (Print Assumptions: closed under the global context)",
     "shared green-tree model coq/model/Tree.v (ranges derived from leaf byte lengths; descendants() = preorder nodes; "
